@@ -63,7 +63,7 @@ def model_modinv(b, m):
 
 def cmd_modinv(b, m, kind, cell):
     bits = max(abs(m).bit_length(), 1)
-    line = 'modinv %s %s b%d' % (tok(b, kind), tok(m, kind), 3 * bits + 20)
+    line = 'modinv %s %s b%d' % (tok(b, kind), tok(m, kind), 64 * bits + 2000)
     want = model_modinv(b, m)
 
     def check(res):
